@@ -237,6 +237,52 @@ def run(argv):
         t.join()
 
 
+def recheck(argv):
+    """re-run the checks (not the tests) on the unflagged survivors of a results file, in a separate worktree pool"""
+    rs = [json.loads(l) for l in open(argv[0])]
+    muts = {json.loads(l)["id"]: json.loads(l) for l in open(argv[1])}
+    todo = [muts[r["id"]] for r in rs if r["status"].startswith("unflagged+survived") and r["id"] in muts]
+    q = queue.Queue()
+    for m in todo:
+        q.put(m)
+    out = {}
+    lock = threading.Lock()
+
+    def w(k):
+        wt = "/tmp/mv/%d" % k
+        cache = "/tmp/mvc/%d" % k
+        if not os.path.isdir(wt):
+            sh(["git", "-C", REPO, "worktree", "add", "--detach", wt, "HEAD", "-q"])
+        os.makedirs(cache, exist_ok=True)
+        env = dict(os.environ, VERIF_REPO=wt, VERIF_CACHE=cache, VERIF_SCRATCH_OUT=cache, CARGO_NET_OFFLINE="true")
+        while True:
+            try:
+                m = q.get_nowait()
+            except queue.Empty:
+                return
+            path = os.path.join(wt, m["file"])
+            src = open(path).read()
+            lines = src.split("\n")
+            if lines[m["line"] - 1] != m["old"]:
+                with lock:
+                    out[m["id"]] = "stale"
+                continue
+            lines[m["line"] - 1] = m["new"]
+            open(path, "w").write("\n".join(lines))
+            rc, o = sh([sys.executable, os.path.join(VERIF, "dev", "checkall.py")], env=env, timeout=900)
+            open(path, "w").write(src)
+            fl = [l.split(" ", 3)[1] + ":" + (l.split(" ", 3)[3][:80] if len(l.split(" ", 3)) > 3 else "") for l in o.split("\n") if l.startswith("RESULT") and l.split(" ")[2] != "0"]
+            with lock:
+                out[m["id"]] = fl or ("BUILD-FAILED" if "BUILD-FAILED" in o else [])
+    ths = [threading.Thread(target=w, args=(k,)) for k in range(4)]
+    for t in ths:
+        t.start()
+    for t in ths:
+        t.join()
+    for m in todo:
+        print("%s %s:%d [%s] %s => %s\n      now: %s" % (m["id"], m["file"].replace("crates/", ""), m["line"], m["op"], m["old"].strip()[:70], m["new"].strip()[:70], out.get(m["id"])))
+
+
 def report(argv):
     rs = [json.loads(l) for l in open(argv[0])]
     from collections import Counter
@@ -251,4 +297,4 @@ def report(argv):
 
 if __name__ == "__main__":
     cmd = sys.argv[1]
-    {"gen": lambda a: gen(), "run": run, "report": report}[cmd](sys.argv[2:])
+    {"gen": lambda a: gen(), "run": run, "report": report, "recheck": recheck}[cmd](sys.argv[2:])
